@@ -10,8 +10,10 @@
 //     evaluator returns when called directly now.
 // Each answer to `find`/`peval` ends in `| ok`, `| n/a` or `| BAD <reason>`.
 //
-//   new <bits> <n> (<d0> <d1>)*n      -> new <class>*n   (slot classes OBSERVED on a scratch table)
+//   new <bits> <n> (<d0> <d1>)*n      -> new <class>*n   (slot classes OBSERVED on a scratch table, numbered in save order)
 //   ins <i> <len> <w>*len | find <i> | clr | clrk <i> | reload | jump <seal>
+//   dump                              -> dump s <seal> n <count> (k <d0> <d1> f <len> <w>*len)*   (tokens save() writes)
+//   loadcut <p>                       -> loadcut 0|1 <tokens>   (save, keep the first p % of the tokens, load into a fresh table)
 //   pnew <bits> <n> (<d0> <d1>)*n <m> (<keyidx> <fitclass>)*m  -> pnew <class>*n
 //   peval <id> | pdata <d> | pclr | preload
 //   wrapreal                          -> performs 2^32 real clear() calls (thorough tier)
@@ -131,9 +133,69 @@ std::string classes(unsigned bits, const std::vector<hash_t> &keys)
   for (std::size_t i(0); i < n; ++i)
     for (std::size_t j(0); j < n; ++j)
       if (same[i][j] != (cls[i] == cls[j])) return " not-an-equivalence";
+  // rank the classes by the ORDER IN WHICH save() WRITES their slots (observed, not computed): one
+  // non-empty representative per class is stored in a scratch table, saved, and the keys are read back
+  // in stream order.  Classes that never appear in a save (only the empty key) come last.
+  std::vector<std::size_t> rep;            // one representative (non-empty key if any) per class id
+  for (std::size_t i(0); i < n; ++i)
+    if (cls[i] == i)
+    {
+      std::size_t r(i);
+      for (std::size_t j(i); j < n; ++j) if (cls[j] == i && !keys[j].empty()) { r = j; break; }
+      rep.push_back(r);
+    }
+  vita::cache sr(bits);
+  for (auto r : rep) if (!keys[r].empty()) sr.insert(keys[r], fitness_t{1.0});
+  std::stringstream ss;
+  if (!sr.save(ss)) return " save-failed";
+  unsigned seal; std::size_t cnt;
+  if (!(ss >> seal >> cnt)) return " save-unparsable";
+  std::map<std::size_t, std::size_t> rank;   // class id -> rank
+  for (std::size_t e(0); e < cnt; ++e)
+  {
+    hash_t h; fitness_t f;
+    if (!h.load(ss) || !f.load(ss)) return " save-unparsable";
+    for (auto r : rep) if (keys[r] == h) rank[cls[r]] = e;
+  }
   std::string s;
-  for (auto c : cls) s += " " + std::to_string(c);
+  for (auto c : cls) s += " " + std::to_string(rank.count(c) ? rank[c] : n + c);
   return s;
+}
+
+// the tokens of a stream written by cache::save, as vita's own loaders delimit them: seal, count, then a
+// key and a fitness per entry.  `ends[i]` = offset just after token i.  `shown` = the tokens in the
+// notation of the model driver.
+bool tokens_of(const std::string &text, std::vector<std::size_t> &ends, std::string &shown)
+{
+  std::istringstream in(text);
+  auto pos = [&]() -> std::size_t
+  {
+    if (in.eof()) { in.clear(in.rdstate() & ~std::ios::eofbit); }
+    const auto p(in.tellg());
+    return p < 0 ? text.size() : std::size_t(p);
+  };
+  unsigned seal;
+  if (!(in >> seal)) return false;
+  ends.push_back(pos());
+  shown += " s " + std::to_string(seal);
+  std::size_t cnt;
+  if (!(in >> cnt)) return false;
+  ends.push_back(pos());
+  shown += " n " + std::to_string(cnt);
+  for (std::size_t e(0); e < cnt; ++e)
+  {
+    hash_t h;
+    if (!h.load(in)) return false;
+    ends.push_back(pos());
+    shown += " k " + std::to_string(std::uint64_t(h.data[0])) + " " + std::to_string(std::uint64_t(h.data[1]));
+    fitness_t f;
+    if (!f.load(in)) return false;
+    ends.push_back(pos());
+    shown += " " + show("f", to_words(f));
+  }
+  std::string rest;
+  if (in >> rest) return false;              // something after the announced entries
+  return true;
 }
 }  // namespace
 
@@ -239,6 +301,36 @@ int main(int argc, char **argv)
         if (!pool[i].empty() && to_words(c->find(pool[i])) != before[i])
           verdict = "BAD lookup-differs-after-save-load key=" + std::to_string(i);
       std::cout << "reload " << (l ? 1 : 0) << " | " << verdict << "\n";
+    }
+    else if (cmd == "dump" && x.empty() && c)
+    {
+      // what save() writes, token by token, in stream order
+      std::stringstream ss;
+      const bool s(c->save(ss));
+      std::vector<std::size_t> ends;
+      std::string shown;
+      if (!s) std::cout << "dump save-failed\n";
+      else if (!tokens_of(ss.str(), ends, shown)) std::cout << "dump unparsable" << shown << "\n";
+      else std::cout << "dump" << shown << "\n";
+    }
+    else if (cmd == "loadcut" && x.size() == 1 && c)
+    {
+      // save, cut the stream after its first x[0] tokens, load THAT into a fresh table, go on with it
+      std::stringstream ss;
+      const bool s(c->save(ss));
+      std::vector<std::size_t> ends;
+      std::string shown;
+      if (!s || !tokens_of(ss.str(), ends, shown)) { std::cout << "loadcut unparsable\n"; continue; }
+      const std::size_t m(x[0] >= 100 ? ends.size() : ends.size() * x[0] / 100);   // x[0] = per cent of the tokens kept
+      std::istringstream in(ss.str().substr(0, m ? ends[m - 1] : 0));
+      auto fresh(std::make_unique<cache>(bits));
+      const bool l(fresh->load(in));
+      c = std::move(fresh);
+      std::string verdict("ok");
+      // (a truncated stream that is accepted is C12's subject, not a violation of THIS property: the
+      //  lookups that follow are still checked against the abstract map)
+      if (!l && m == ends.size()) verdict = "BAD load-rejects-what-save-wrote";
+      std::cout << "loadcut " << (l ? 1 : 0) << " " << ends.size() << " | " << verdict << "\n";
     }
     else if (cmd == "jump" && x.size() == 1 && c && x[0] < 4294967296ull)
     {
